@@ -35,7 +35,8 @@ class HistoryProp(Prop):
         if os.environ.get("GAISIM_FAMILIES"):
             fams = os.environ["GAISIM_FAMILIES"].split(",")
         cfg = {"hazards": hz, "families": fams, "n_files": rng.randint(1, 3), "max_lines": 60,
-               "human_pre_ckpt": True, "gates": self.gates(), "dirty_buffers": rng.random() < 0.2}
+               "human_pre_ckpt": True, "gates": self.gates(), "dirty_buffers": rng.random() < 0.2,
+               "maintenance": rng.random() < 0.2}
         idg = gen.IdGen()
         files = gen.initial_files(rng, idg, cfg["n_files"], 10, hz)
         if not any(files.values()):
@@ -64,7 +65,23 @@ class HistoryProp(Prop):
             hz["multibyte"] = True
         return hz
 
+    MAINTENANCE = [["pack-refs", "--all"], ["pack-refs", "--all"], ["gc", "-q"], ["repack", "-a", "-d", "-q"],
+                   ["reflog", "expire", "--expire=now", "--all"]]
+
     def ops(self, rng, ex, cfg):
+        if not cfg.get("maintenance"):
+            yield from self.family_ops(rng, ex, cfg)
+            return
+        # repository maintenance between the steps (refs get packed, objects repacked, reflogs expired): none of it
+        # may change what is recorded
+        g = hist.G(rng, ex, cfg)
+        for op in self.family_ops(rng, ex, cfg):
+            yield op
+            if op["op"] == "git" and rng.random() < 0.3:
+                ex.probe("maintenance")
+                yield g.git(*rng.choice(self.MAINTENANCE))
+
+    def family_ops(self, rng, ex, cfg):
         from . import c09, c15  # noqa: F401  (they register the renames and fastpath families)
         g = hist.G(rng, ex, cfg)
         for k, fam in enumerate(cfg["families"]):
